@@ -30,6 +30,8 @@ class Recorder:
         self.decode = None       # function: packed chunk -> library ids
         self.uclass = None       # function(list of lib ids at positions, n) -> array of uniforms or None
         self.choice_script = None
+        self.choice_script_used = False     # the scripted order / uniforms actually reached the sampler (else a replay does not apply)
+        self.uscript_used = False
         self.inject = {}         # lib id -> forced ll value
         self.fault = None        # (kind, k) raise at the k-th call of kind
         self.counts = {}
@@ -91,6 +93,8 @@ class RecGen(np.random.Generator):
             n = int(size) if np.ndim(size) == 0 else int(size[0])
             s = self._rec.uclass(list(self._rec.evaluated), n, np.asarray(u, dtype=float))
             if s is not None:
+                if len(self._rec.evaluated) == n:
+                    self._rec.uscript_used = True
                 u = np.asarray(s, dtype=float)
         self._log("uniform", n=int(np.size(u)), u=tokens.ord_tokens(u), before=before, after=_state_hash(self.bit_generator))
         return u
@@ -110,6 +114,7 @@ class RecGen(np.random.Generator):
         r = super().choice(a, size=size, replace=replace, p=p, axis=axis, shuffle=shuffle)
         if self._rec.choice_script is not None:
             r = np.asarray(self._rec.choice_script(a, size), dtype=r.dtype)
+            self._rec.choice_script_used = True
         self._log("choice", a=int(a) if np.ndim(a) == 0 else int(len(a)), n=int(np.size(r)), replace=bool(replace),
                   result=[int(x) for x in np.atleast_1d(r)], before=before, after=_state_hash(self.bit_generator))
         return r
@@ -141,8 +146,11 @@ class RecGen(np.random.Generator):
         finally:
             self._depth -= 1
 
-    def random(self, *a, **k):
-        return self._passthrough("random", a, k)
+    def random(self, size=None, dtype=np.float64, out=None):
+        # rng.random(n) and rng.uniform(size=n) are the same flat variates: recorded (and scripted) alike
+        if out is not None or dtype is not np.float64:
+            return self._passthrough("random", (size, dtype, out), {})
+        return self.uniform(0.0, 1.0, size)
 
     def normal(self, *a, **k):
         return self._passthrough("normal", a, k)
@@ -150,8 +158,23 @@ class RecGen(np.random.Generator):
     def integers(self, *a, **k):
         return self._passthrough("integers", a, k)
 
-    def permutation(self, *a, **k):
-        return self._passthrough("permutation", a, k)
+    def permutation(self, x, axis=0):
+        # a shuffled evaluation order drawn as a permutation: recorded (and scripted) like choice(n, n, replace=False)
+        if self._depth > 0 or np.ndim(x) != 0:
+            return self._passthrough("permutation", (x, axis), {})
+        self._depth += 1
+        try:
+            self._rec.tick("choice")
+            before = _state_hash(self.bit_generator)
+            r = super().permutation(x, axis)
+            if self._rec.choice_script is not None:
+                r = np.asarray(self._rec.choice_script(x, int(x)), dtype=r.dtype)
+                self._rec.choice_script_used = True
+            self._log("choice", a=int(x), n=int(np.size(r)), replace=False, result=[int(v) for v in np.atleast_1d(r)],
+                      before=before, after=_state_hash(self.bit_generator))
+            return r
+        finally:
+            self._depth -= 1
 
     def shuffle(self, *a, **k):
         return self._passthrough("shuffle", a, k)
